@@ -838,6 +838,14 @@ func (w *World) lsOp(rc *Recorder, op string) error {
 	case "CMP":
 		_, _ = w.ldb.Compact(ctx, 1)
 		return nil
+	case "RESET": // ResetLocalState on the running object (the monitor's auto-recovery after a local LTX error)
+		st0 := w.ldb.VerifSyncState()
+		if err := w.ldb.ResetLocalState(ctx); err != nil {
+			w.lsErrs++
+			return nil
+		}
+		w.observeReset(rc, st0)
+		return nil
 	}
 	return fmt.Errorf("unknown litestream op %q", op)
 }
@@ -1147,6 +1155,16 @@ var ckptWindowScripts = func() (l [][2]string) {
 	for _, k := range []int{5, 6, 7, 8, 9} {
 		l = append(l, [2]string{"passive-barrier-window",
 			fmt.Sprintf("OPEN S W W SW INJ=%d CK-PASSIVE SW W SW", k)})
+	}
+	// run-time ResetLocalState (the monitor's auto-recovery) while the local level-0 chain is ahead of the
+	// replica and litestream's own checkpoint has run since: the baseline re-fetched from the replica is older
+	// than the in-memory cursor; syncedToWALEnd / reachedWALEnd of the removed files must not be trusted
+	// (fixed in /repo: the reset clears the sync state)
+	for _, mode := range []string{"TRUNCATE", "PASSIVE", "FULL", "RESTART"} {
+		l = append(l, [2]string{"reset-ahead:" + mode,
+			fmt.Sprintf("OPEN S W W SW W S CK-%s RESET W SW W SW", mode)})
+		l = append(l, [2]string{"reset-ahead:" + mode,
+			fmt.Sprintf("OPEN S W W W SW W S W S CK-%s W RESET W SW", mode)})
 	}
 	// error exit after the PRAGMA: a commit lands between the pre-checkpoint copy and the PRAGMA, and the
 	// sequence bump fails busy (the application holds the write lock with a one-page transaction): the
